@@ -13,7 +13,8 @@ META = {
              "through three code paths (meta-call, compiled clause body, clause-head instructions) and comparing success, A == B, "
              "every variable's binding up to variance, an outside witness variable and the error formal inside Coq."),
     "note": ("Trusted: Coq kernel + vm_compute; the variant normaliser canon_l and the check_* comparison functions (not proved); harness vrun; "
-             "the Python generator and the Prolog-side encoder of bindings (uses =../2, acyclic_term/1, ==/2 of the implementation). "
+             "the Python generator and the Prolog-side encoder of bindings (uses =../2 and ==/2 of the implementation; a unifier is reported as "
+             "cyclic when the bindings of the variables have more than 4000 nodes -- acyclic_term/1 is not used because it corrupts strings, see C24). "
              "Not proved: fuel sufficiency of unify_rt and that success of unify_rt means bisimilarity (only the *_partial statements); "
              "the tabu-list mechanics of unify.rs are not mirrored, only tied by the correspondence. -0.0 is normalised to 0.0 (the "
              "implementation has 0.0 == -0.0); a rational with denominator 1 is read as the integer (the implementation has 2 rdiv 1 == 2). "
@@ -36,19 +37,20 @@ IMPORTS = "From V Require Import Base.Term C10.Model."
 WIT = 99
 
 SUPPORT = r"""
-c10_enc(T, v(T)) :- var(T), !.
-c10_enc(T, T) :- atomic(T), !.
-c10_enc([H|T], l(EH,ET)) :- !, c10_enc(H, EH), c10_enc(T, ET).
-c10_enc(T, s(F, EAs)) :- T =.. [F|As], c10_encl(As, EAs).
-c10_encl([], []).
-c10_encl([A|As], [E|Es]) :- c10_enc(A, E), c10_encl(As, Es).
+c10_enc(_, _, N, _) :- N =< 0, !, throw(c10_too_big).
+c10_enc(T, v(T), N0, N) :- var(T), !, N is N0 - 1.
+c10_enc(T, T, N0, N) :- atomic(T), !, N is N0 - 1.
+c10_enc([H|T], l(EH,ET), N0, N) :- !, N1 is N0 - 1, c10_enc(H, EH, N1, N2), c10_enc(T, ET, N2, N).
+c10_enc(T, s(F, EAs), N0, N) :- T =.. [F|As], N1 is N0 - 1, c10_encl(As, EAs, N1, N).
+c10_encl([], [], N, N).
+c10_encl([A|As], [E|Es], N0, N) :- c10_enc(A, E, N0, N1), c10_encl(As, Es, N1, N).
 c10_unify(eq, A, B) :- A = B.
 c10_unify(uoc, A, B) :- unify_with_occurs_check(A, B).
 c10_post(no, _, _, _, no).
 c10_post(err(E), _, _, _, err(E)).
 c10_post(yes, A, B, Vs, Out) :-
     ( A == B -> S = same ; S = diff ),
-    ( acyclic_term(Vs) -> c10_encl(Vs, Es), Out = ok(S, Es) ; Out = cyc(S) ).
+    ( catch(c10_encl(Vs, Es, 4000, _), c10_too_big, fail) -> Out = ok(S, Es) ; Out = cyc(S) ).
 c10_run(Flag, M, A, B, Vs, Out) :-
     set_prolog_flag(occurs_check, Flag),
     catch((c10_unify(M, A, B) -> R = yes ; R = no), error(E, _), R = err(E)),
@@ -328,7 +330,10 @@ def classify(ans, path):
 def run(ctx):
     pairs, kinds = gen_pairs(ctx)
     jobs, index = build_jobs(pairs)
+    import time
+    t0 = time.time()
     res = core.vrun_query(ctx.prop, jobs, tag="impl")
+    core.log("C10: %d queries on the implementation in %.1fs" % (len(index), time.time() - t0))
     exprs, meta = [], []
     tie_breaks, failures = [], []
     outcome = {}
@@ -353,7 +358,9 @@ def run(ctx):
         if e not in uniq: uniq[e] = len(uniq)
         pos.append(uniq[e])
     ulist = list(uniq)
+    t0 = time.time()
     bad, errs = core.coq_eval_bools(ctx.prop, IMPORTS, ulist, chunk=500)
+    core.log("C10: %d Coq evaluations in %.1fs" % (len(ulist), time.time() - t0))
     badset = set(bad)
     for k, t in errs:
         tie_breaks.append({"kind": "coq-eval", "what": "model evaluation shard failed", "detail": t})
